@@ -34,6 +34,12 @@ P.update({
    technique='AST->SMT translation of the real source; inductive lemmas discharged by z3 (QF_NRA), translation validated against the real class',
    note='Trusted: the AST->z3 translator (checked on every run against the real class on seeded concrete inputs), z3 5.1.0, floats modelled as reals (IEEE rounding outside the claim), the clock contract (non-decreasing readings; sleep(d) advances >= d), and the short telescoping argument that turns the lemmas into the window bound (stated in evidence.assumptions).'),
 })
+P.update({
+ 'C14': dict(level='other', ref='DESIGN.md section 3 C14',
+   text='TaggedSeries.encode and WhisperDatabase.getFilesystemPath (real class body, stub whisper module) decided for every metric string of length <= 4 (quick) / 5 (thorough) over the full alphabet, both TAG_HASH_FILENAMES values, 4 data directories: relative path never absolute and free of "." (no "."/".." segment), deterministic; injectivity for all pairs of well-formed untagged names up to length 3 plus a table of look-alike spellings. Lexical confinement only (whisper/ceres absent).'),
+ 'C18': dict(level='other', ref='DESIGN.md section 3 C18',
+   text='Idempotence, tag-rule conformance and stored/relayed-as-received for every string of length <= 4 (quick) / 6 (thorough) over the full alphabet through the real parser (shadow without message formatting) and the real CacheFeedingProcessor/RelayProcessor; order- and syntax-independence over tables of components incl. empty and reserved-character ones with symbolic indices (the OpenMetrics regex on long symbolic strings is out of reach). One known finding (mixed syntax).'),
+})
 NA_PENDING = 'harness not implemented yet in this round (see DESIGN.md section 3 for the planned solver-based harness)'
 
 
